@@ -311,3 +311,4 @@ macro_rules! filter_long_list {
 }
 filter_long_list!(filter_long_list_last_16, 16, 129, 128);
 filter_long_list!(filter_long_list_first_16, 16, 129, 0);
+
